@@ -77,6 +77,35 @@ def part_numbers(ctx):
             ctx.sample({'a': repr(a), 'b': repr(b), 'max': mx, 'impl': d, 'model': model[i] if model else None})
 
 
+def part_complex(ctx):
+    """complex operands of the number distance (implementation only: outside the rational model): within [0, max], 0 only for equal numbers,
+    in particular not for different numbers of one modulus"""
+    from deepdiff.distance import get_numeric_types_distance
+    from deepdiff import DeepDiff
+    cs = [3 + 4j, 4 + 3j, 5, 5.0, 1j, 1, -1, 1 + 1j, -1 - 1j, 0j, 0, 2.5 - 1j, 2.5 + 1j]
+    for a, b in itertools.product(cs, repeat=2):
+        if not (isinstance(a, complex) or isinstance(b, complex)):
+            continue
+        for mx in (1, 0.3):
+            ctx.evaluations += 1
+            case = {'kind': 'numbers (complex)', 'a': repr(a), 'b': repr(b), 'max': mx}
+            try:
+                d = get_numeric_types_distance(a, b, mx)
+            except Exception as e:
+                ctx.violate(case, 'raised %s' % type(e).__name__); continue
+            ctx.count('complex')
+            if a != b:
+                ctx.nontriv(('complex', repr(a), repr(b), mx))
+            if not (0 <= d <= mx):
+                ctx.violate(case, 'distance %r outside [0, %r]' % (d, mx))
+            elif (d == 0) != (a == b):
+                ctx.violate(case, 'distance %r but a == b is %r' % (d, a == b))
+        ctx.evaluations += 1
+        dd = DeepDiff(a, b, get_deep_distance=True)
+        if a != b and not dd.get('deep_distance', 0) > 0:
+            ctx.violate({'kind': 'deep', 't1': repr(a), 't2': repr(b), 'cfg': {}}, 'different numbers but deep_distance = %r' % dd.get('deep_distance'))
+
+
 def part_vectorised(ctx):
     """the bulk form of the number distance (numpy arrays, used for pairing when several numbers of one type are unmatched on both sides)
     gives, pair by pair, what the scalar form gives: within [0, max], 0 only for equal numbers"""
@@ -388,6 +417,7 @@ def part_deep(ctx):
 def run(ctx, impl_only=False):
     part_numbers(ctx)
     part_vectorised(ctx)
+    part_complex(ctx)
     part_nonfinite(ctx)
     wit = part_typed(ctx)
     part_root_numbers(ctx)
